@@ -300,6 +300,49 @@ def shrink_children(dentries, bad):
     return cur
 
 
+# ------------------------------------------------------------------ sumup given positionally
+def sumup_positional(ctx):
+    """fixed battery: the documented signature of the four top-level functions is getX(sources, observers, sumup,
+    squeeze, ...), so getX(sources, observers, True) must return the SUM over the sources (the methods of sources,
+    sensors and collections take sumup by keyword only or not at all)"""
+    rng = ctx.rng
+    srcs = []
+    for kind in ("Cuboid", "Circle", "Dipole"):
+        o, _k = l2b.real_source(rng, kind)
+        l2b.rnd_pose(rng, o, maxlen=1)
+        srcs.append(o)
+    dsrcs = [l2b.dump_obj(o) for o in srcs]
+    pts = [l2b.rvec(rng, -4, 4) for _ in range(2)] + [(srcs[0]._orientation[0].apply([0.01, 0.02, 0.0]) + srcs[0]._position[0]).tolist()]
+    for field in ("B", "H", "J", "M"):
+        ctx.bump("sumup-positional:get" + field)
+        ctx.case(("sumup-positional", field, repr(dsrcs)[:200]), True)
+        res = sumup_positional_fails(dsrcs, pts, field)
+        if res is not None:
+            ctx.impl_fail(f"sumup/positional-argument:get{field}", res,
+                          {"kind": "sumup-positional", "sources": dsrcs, "points": pts, "field": field})
+
+
+def sumup_positional_fails(dsrcs, pts, field):
+    f = l2b.field_fn(field)
+    srcs = [l2b.load_obj(d) for d in dsrcs]
+    pts = np.array(pts, dtype=float)
+    exp = sum(f(o, pts, squeeze=False) for o in srcs)                 # (1, 1, 1, n, 3)
+    scale = max(float(np.abs(exp).max()), 1e-300)
+    for args, what in (((True,), "get%s(sources, observers, True)" % field),
+                       ((True, False), "get%s(sources, observers, True, False)" % field)):
+        try:
+            got = f(srcs, pts, *args)
+        except Exception as e:   # pylint: disable=broad-except
+            return f"{what} raised {type(e).__name__}: {e}"
+        want = exp if args == (True, False) else np.squeeze(exp)
+        if np.shape(got) != want.shape:
+            return (f"{what}: third positional argument is `sumup` in the documented signature, but the result has shape "
+                    f"{np.shape(got)} instead of {want.shape} (sum over the sources)")
+        if float(np.abs(got - want).max()) > 1e-11 * scale:
+            return f"{what} differs from the explicit sum of the single-source fields"
+    return None
+
+
 # ------------------------------------------------------------------ one pixel exactly on a documented singular point
 def g_singular(rng):
     """a source with exact (dyadic) geometry, unit orientation, and a global point where its field is singular"""
@@ -604,6 +647,7 @@ def run(ctx):
     run_guarded(ctx, lambda: exact_oracle(ctx, sub), "C05 exact oracle")
     run_guarded(ctx, lambda: sup_search(ctx, ctx.n(150, 4000) * (4 if big else 1)), "C05 superposition search")
     run_guarded(ctx, lambda: lin_search(ctx, ctx.n(25, 500) * (3 if big else 1)), "C05 linearity search")
+    run_guarded(ctx, lambda: sumup_positional(ctx), "C05 positional sumup")
     run_guarded(ctx, lambda: sing_search(ctx, ctx.n(60, 1500) * (3 if big else 1)), "C05 singular-point search")
     run_guarded(ctx, lambda: hist_search(ctx, ctx.n(150, 3000) * (4 if big else 1)), "C05 history search")
 
@@ -618,6 +662,8 @@ def replay(ctx, obj):
     elif kind == "float-sup":
         res = sup_fails(rp["entries"], rp["observers"], rp["field"], rp["sumup"])
         res = None if res is None else res[1]
+    elif kind == "sumup-positional":
+        res = sumup_positional_fails(rp["sources"], rp["points"], rp["field"])
     elif kind == "float-singular":
         res = sing_eval(rp["entries"], rp["sing_entry"], rp["pixels"], rp["field"])
     elif kind == "history":
